@@ -194,7 +194,7 @@ func genHashScenario(r *kernel.RNG, tier string, i int) interface{} {
 		case 0:
 			op.Op = "hset"
 			if r.Chance(0.3) {
-				op.Route = r.Pick([]string{"index", "dot"})
+				op.Route = r.Pick([]string{"index", "dot", "keyvar"})
 			}
 		case 1:
 			op.Op = "hdel"
@@ -869,6 +869,13 @@ func execHash(body json.RawMessage) *kernel.Result {
 				}
 				text = fmt.Sprintf("{%s[%s] = %d}", H, ik, op.V)
 				res.Probe("write-by-index-assignment")
+			case op.Route == "keyvar" && sc.Keys[op.K].Kind == "arrN" && strings.Count(k, " ") >= 1 && !strings.HasPrefix(k, "[[") && !strings.HasPrefix(k, "[]"):
+				// the key is an array held in a variable, which the script changes afterwards: the hash keeps the key
+				// it was given (a key is a value, not a reference to the caller's array)
+				accN++
+				kv := fmt.Sprintf("kv%d", accN)
+				text = fmt.Sprintf("(def %s %s) (hset %s %s %d) (aset %s 0 424242) nil", kv, k, H, kv, op.V, kv)
+				res.Probe("key-array-mutated-after-store")
 			case op.Route == "dot" && sc.Keys[op.K].Kind == "sym" && op.Via != "arr":
 				text = fmt.Sprintf("{%s.%s = %d}", H, sc.Keys[op.K].Text, op.V)
 				res.Probe("write-by-dot-path")
